@@ -580,7 +580,7 @@ def main(seed, tier, args):
     ex = {"enumerated_bases": len(bases), "enumerated_single_fault_cases": n_enum,
           "exhaustive_over": "fault position (every truncation offset, every record index x corruption kind) for the enumerated bases; schedules are sampled",
           "enumerated_base_layouts": [[b["input"]["layout"], b["input"]["containers"], b["input"]["members"], len(b["records"])] for b in bases]}
-    conf, problems = conformance(seed, tier, 10 if tier == "quick" else 150)
+    conf, problems = conformance(seed, tier, 24 if tier == "quick" else 200)
     ex.update(conf)
     rc, ev = engine.run_batch(mod, seed, tier, n, budget, extra_evidence=ex)
     if problems:
